@@ -128,6 +128,16 @@ TEMPLATES = {
         [],
         ["EndA", "EndB", "Tick", "Tock", "FIN", "Tick", "AGE", "AGE"],
     ),
+    # the first activator ends, its instance is cleaned up (idle time), the activated flow finishes and restarts several times,
+    # then the remaining activator ends
+    "two-activators-aged-restarts": (
+        "flow main\n  start fa\n  start fb\n  match Never()\n\n"
+        "flow fa\n  activate fz\n  match EndA()\n\n"
+        "flow fb\n  activate fz\n  match EndB()\n\n"
+        "flow fz\n  match Tick()\n  start FzAction() as $z\n  match Tock()\n",
+        ["EndA", "AGE", "X", "Tick", "Tock", "Tick", "Tock", "Tick"],
+        ["EndB", "Tick", "Tock", "X", "FIN", "AGE", "EndB"],
+    ),
     # an activated flow that finishes without ever waiting runs once and stays activated
     "never-waiting": (
         "flow main\n  start fa\n  match Never()\n\n"
